@@ -880,4 +880,38 @@ theorem version_ge_konsole (a b c : Nat) :
     simp [this]; omega
 
 
+
+/-! ### the literal loop -/
+
+theorem readIter_eq (more : Bytes → Bool) (T : Nat) :
+    ∀ (s : Stream) (f dur : Nat) (inp : Bytes), s.length + 2 ≤ f →
+      (readIter more T f dur inp s).1 = readLoop more T dur inp s ∧
+      (readIter more T f dur inp s).2 ≤ s.length + 1 := by
+  intro s
+  induction s with
+  | nil =>
+    intro f dur inp hf
+    obtain ⟨f1, rfl⟩ : ∃ f1, f = f1 + 1 := ⟨f - 1, by simp at hf; omega⟩
+    obtain ⟨f2, rfl⟩ : ∃ f2, f1 = f2 + 1 := ⟨f1 - 1, by simp at hf; omega⟩
+    simp only [readIter, readLoop]
+    by_cases hc : (decide (dur < T) && more inp) = true
+    · simp [hc, readIter]
+    · simp [hc]
+  | cons x rest ih =>
+    intro f dur inp hf
+    obtain ⟨g, b⟩ := x
+    obtain ⟨f1, rfl⟩ : ∃ f1, f = f1 + 1 := ⟨f - 1, by simp at hf; omega⟩
+    obtain ⟨f2, rfl⟩ : ∃ f2, f1 = f2 + 1 := ⟨f1 - 1, by simp at hf; omega⟩
+    simp only [List.length_cons] at hf ⊢
+    rw [readIter, readLoop]
+    by_cases hc : (decide (dur < T) && more inp) = true
+    · simp only [hc, if_true]
+      by_cases hg : g ≤ T - dur
+      · simp only [hg, if_true]
+        have := ih (f2 + 1) (dur + g) (inp ++ [b]) (by omega)
+        exact ⟨this.1, by omega⟩
+      · simp only [hg, if_false]
+        simp [readIter]
+    · simp [hc]
+
 end TIV.C12
